@@ -507,6 +507,17 @@ func (v *Value) EqualValueTo(other *Value) bool {
 	if v.IsInteger() && other.IsInteger() {
 		return v.Integer() == other.Integer()
 	}
+	// the same for floats of different widths and for values behind pointers
+	// (which all other operators look through as well)
+	if v.IsFloat() && other.IsFloat() {
+		return v.Float() == other.Float()
+	}
+	if v.IsString() && other.IsString() {
+		return v.getResolvedValue().String() == other.getResolvedValue().String()
+	}
+	if v.IsBool() && other.IsBool() {
+		return v.Bool() == other.Bool()
+	}
 	if v.IsTime() && other.IsTime() {
 		return v.Time().Equal(other.Time())
 	}
